@@ -533,6 +533,9 @@ def run_c01(ck, fb, fbd):
     km, cm = c.km, c.cm
     ck.rule("L.cache", "every grow/erase/clear of a definition array is matched on the bottom-up cache indexed by the same kind, under the same mode conditions plus the cache's has_* guard (twice and higher-position-first for half-entity caches) - and a cache is never grown/erased without its definition")
     lockstep(c, "L.cache", ("grow", "erase", "clear"), {"cache"})
+    ck.rule("L.swap", "each swap_K_indices swaps the cache of K (half kinds side by side) under its guard together with the definition")
+    lockstep(c, "L.swap", ("swap",), {"cache"}, skip_fns=("collapse_edge",))
+    relabel_rules(c)
     # element-level maintenance: add_edge/add_face/add_cell push / assign for every new half entity
     ck.rule("C01.link", "add_edge pushes both new halfedges into the vertex cache, add_face pushes the new halfface for the halfedge and its opposite, add_cell assigns the new cell to each of its halffaces - each under the cache's guard only")
     elem = elem_effects(c)
@@ -711,6 +714,14 @@ def run_c17(ck, fb, fbd):
                 if (eq, False) not in {(estr(cn), p) for cn, p, e in f.facts(b)}:
                     bad.append(f.loc(n))
         (ck.ok if not bad else lambda r, w, t: ck.violate(r, w, t, "C17.noop:%s:effects" % f.pq))("C17.noop", f.where, "%s: all %d member-writing statements are behind !%s%s" % (f.name, writes, eq, (" except " + ", ".join(bad)) if bad else ""))
+    relabel_rules(c, swaps)
+
+
+def relabel_rules(c, swaps=None):
+    ck, fb, km = c.ck, c.fb, c.km
+    if swaps is None:
+        swaps = [f for f in c.fns if any(e["cls"] == "swap" and e["role"] in ("def", "flag") for e in c.eff.get(f.id, []))]
+        ck.floor("swap_functions", len(swaps), 4)
     # relabel siblings + processed sets
     ck.rule("C17.relabel", "both the cache-guided and the linear-scan branch rewrite references x/2==id1 -> id2 and x/2==id2 -> id1 keeping x%2; a 'processed' set in a guided branch lives outside the two-handle loop, is consulted before and filled after the rewrite, and is keyed by the entity whose definition/cache entry is rewritten")
     for f in swaps:
